@@ -1,0 +1,25 @@
+//go:build verif
+
+// Contracts for package util (comment-only; read by /verif/bin/gv, never
+// compiled into a normal build). See /verif/DESIGN.md.
+package util
+
+// C11: the matching stages split the left individuals over worker indexes
+// 0 .. ws-1 (worker w takes left[w], left[w+ws], ...; the stride lemmas say
+// these cover every individual exactly once) and rely on the pool to start
+// one worker for EVERY index, whatever the machine: exactly ws goroutines, the
+// k-th with index k, and each worker calls the function once, with its index.
+//@ func WorkerPool
+//@   props C11
+//@   ghost nGo int = 0
+//@   oncall go check the-next-index: arg0 == nGo
+//@   oncall go do nGo = nGo + 1
+//@   loop 1 invariant one-worker-per-index-so-far: w >= 0 && nGo == w && (w <= ws || ws < 0)
+//@   loop 1 nobreak
+//@   ensures one-worker-for-every-index: nGo == ite(ws0 > 0, ws0, 0)
+//@ func WorkerPool$1
+//@   props C11
+//@   ghost nCall int = 0
+//@   oncall call:fn check with-its-own-index: arg0 == w
+//@   oncall call:fn do nCall = nCall + 1
+//@   ensures calls-the-function-once: nCall == 1
